@@ -250,6 +250,9 @@ func concSearch(args []string) int {
 		if round%3 == 2 {
 			corpus, qs = "shipped", shippedQ
 		}
+		if round%3 == 1 { // a database with one record nothing can be searched by
+			corpus = "mixblank"
+		}
 		c := getCorpus(corpus)
 		mkOpts := func() []database.SearchOptions {
 			return []database.SearchOptions{{Limit: 5}, {Limit: 3, UseNLP: true}, {Limit: 7, UseFuzzy: true, UseNLP: true, FuzzyThreshold: -30},
@@ -467,7 +470,7 @@ func concSearch(args []string) int {
 				for atomic.LoadInt32(&start) == 0 {
 				}
 				for j := 0; j < k; j++ {
-					pm.RecordSearchOperation(time.Microsecond, 1, true, 5)
+					pm.RecordSearchOperation(time.Microsecond, 1, true, (i+j)%2*5) // (an empty query has length 0)
 				}
 			}(i)
 		}
